@@ -24,6 +24,12 @@ var coldFirst = map[string]func(){
 
 func TestColdStart(t *testing.T) {
 	vkit.ColdMain(t, "C06", coldFirst, func(w *vkit.W) {
+		// the operands of the first calls come first
+		for _, p := range [][2]V{{{Pre: "a.1"}, {Pre: "a.2"}}, {{Major: 1}, {Major: 2}}, {{Major: 1, Minor: 2, Patch: 3, Pre: "rc.1"}, {Major: 1, Minor: 2, Patch: 3}}, {{Major: 1, Minor: 2, Patch: 3, Pre: "1"}, {Major: 1, Minor: 2, Patch: 3, Pre: "a"}},
+			{{Major: 1, Build: "b"}, {Major: 1}}, {{Major: 1, Pre: "alpha"}, {Major: 1, Pre: "alpha.1"}}, {{Major: 1, Pre: "rc"}, {Major: 1}}, {{Pre: "10"}, {Pre: "9"}}, {{Pre: "18446744073709551616"}, {Pre: "18446744073709551615"}}} {
+			judge(Case{A: p[0], B: p[1], Helpers: true}, w)
+			judge(Case{A: p[1], B: p[0], Helpers: true}, w)
+		}
 		pres := []string{"", "0", "1", "10", "9", "a", "a.1", "a.10", "a.9", "alpha", "alpha.1", "alpha.beta", "beta", "beta.2", "beta.11", "rc.1", "-", "1.a", "a.a", "18446744073709551616", "18446744073709551615", "a-1", "A", "Z.z"}
 		for _, pa := range pres {
 			for _, pb := range pres {
